@@ -471,7 +471,12 @@ def r03_b(ctx):
     fd = _m(node, '__getattr__')
     ps = fd.params()
     rets = [n for n in ast.walk(fd.node) if isinstance(n, ast.Return)]
-    ok = len(rets) == 1 and norm(rets[0].value).startswith('self.find(%s)' % ps[1])
+    from .model import resolve_locals
+    fcall = 'self.find(%s)' % ps[1]
+    rvals = [norm(resolve_locals(fd.node, r.value)) if r.value is not None else 'None' for r in rets]
+    # every result is the search result, possibly with a fallback for "not found" (the default / None)
+    dflt = {norm(d) for d in fd.node.args.defaults} | {'None'} | set(ps[2:])
+    ok = bool(rets) and any(v.startswith(fcall) for v in rvals) and all(v.startswith(fcall) or v in dflt for v in rvals)
     rr.ob(ok, {'__getattr__': norm(rets[0].value) if rets else None})
     if not ok:
         rr.fail(Finding('R03.b', 'data', fd.qual, rets[0] if rets else '__getattr__', 'attribute access on a node is not '
@@ -569,7 +574,9 @@ def r03_c(ctx):
     tests = [n for n in ast.walk(fd.node) if isinstance(n, ast.Compare) and isinstance(n.ops[0], ast.In) and norm(n.left) == ps[1]]
     ok = False
     if tests:
-        elems = [norm(e) for e in tests[0].comparators[0].elts] if isinstance(tests[0].comparators[0], ast.Tuple) else []
+        from .model import resolve_locals
+        coll = resolve_locals(fd.node, tests[0].comparators[0])
+        elems = [norm(e) for e in coll.elts] if isinstance(coll, (ast.Tuple, ast.List)) else []
         ok = 'self.name' in elems and 'self.begin' in elems and any('self.begin' in e and 'self.args' in e for e in elems)
         sup = any(isinstance(n, ast.Return) and 'super().__match__(%s, %s)' % (ps[1], ps[2]) in norm(n.value) for n in ast.walk(fd.node))
         ok = ok and sup
@@ -586,9 +593,22 @@ EDIT_METHODS = (('TexExpr', 'remove'), ('TexNode', 'delete'), ('TexNode', 'remov
                 ('TexNode', 'replace_with'))
 
 
-def _is_content_list(e):
+def _is_content_list(e, _depth=0):
     t = norm(e)
-    return t.endswith('._contents') or t.endswith('.contents') or t in ('self._contents',)
+    if t.endswith('._contents') or t.endswith('.contents') or t in ('self._contents',):
+        return True
+    # a local bound once to the content list (`contents = self._contents`) is that list
+    if isinstance(e, ast.Name) and _depth == 0:
+        fn = getattr(e, '_parent', None)
+        while fn is not None and not isinstance(fn, ast.FunctionDef):
+            fn = getattr(fn, '_parent', None)
+        if fn is not None:
+            defs = [n for n in ast.walk(fn) if isinstance(n, ast.Assign) and len(n.targets) == 1
+                    and isinstance(n.targets[0], ast.Name) and n.targets[0].id == e.id]
+            stores = sum(1 for n in ast.walk(fn) if isinstance(n, ast.Name) and n.id == e.id and isinstance(n.ctx, ast.Store))
+            if len(defs) == 1 and stores == 1 and _is_content_list(defs[0].value, 1):
+                return True
+    return False
 
 
 def _identity_search(n):
@@ -716,6 +736,18 @@ def r05_a(ctx):
                     for a in ast.walk(fd.node):
                         if isinstance(a, ast.Assign) and norm(a.targets[0]) == var and _identity_search(a.value):
                             excused = True
+                p = getattr(p, '_parent', None)
+            # ... or the site is the fallback arm of `<identity result> if <it> is not None else <equality search>`
+            p = getattr(n, '_parent', None)
+            while p is not None and p is not fd.node:
+                if isinstance(p, ast.IfExp) and isinstance(p.test, ast.Compare) and isinstance(p.test.ops[0], (ast.Is, ast.IsNot)) \
+                        and norm(p.test.comparators[0]) == 'None' and isinstance(p.test.left, ast.Name):
+                    arm = p.body if isinstance(p.test.ops[0], ast.Is) else p.orelse
+                    if any(x is n for x in ast.walk(arm)):
+                        for a in ast.walk(fd.node):
+                            if isinstance(a, ast.Assign) and norm(a.targets[0]) == p.test.left.id and _identity_search(a.value) \
+                                    and a.lineno <= n.lineno:
+                                excused = True
                 p = getattr(p, '_parent', None)
             # ... or the site is the `else` of an identity loop over the list (taken only when no identity hit broke out)
             for lp in idloops:
@@ -898,7 +930,8 @@ def r15_a(ctx):
                 continue
             fd = _m(cls, mname)
             bad = []
-            for n in ast.walk(fd.node):
+            from .model import with_self_aliases_resolved
+            for n in ast.walk(with_self_aliases_resolved(fd.node)):
                 if isinstance(n, (ast.Assign, ast.AugAssign)):
                     for t in (n.targets if isinstance(n, ast.Assign) else [n.target]):
                         if isinstance(t, ast.Attribute):
@@ -1312,9 +1345,11 @@ def r14_a(ctx):
     named = repo.need_cls('data.TexNamedEnv')
     for attr in ('begin', 'end'):
         owner, kind, payload = named.lookup(attr)
+        from .model import effective_method
+        gnode = effective_method(named, payload['getter']).node if kind == 'property' and 'getter' in payload else None
         ok = kind == 'property' and 'getter' in payload and owner is named and any(
-            norm(x) == 'self.name' for x in ast.walk(payload['getter'].node)) and not any(
-            isinstance(x, ast.Attribute) and x.attr in ('_begin', '_end') for x in ast.walk(payload['getter'].node))
+            norm(x) == 'self.name' for x in ast.walk(gnode)) and not any(
+            isinstance(x, ast.Attribute) and x.attr in ('_begin', '_end') for x in ast.walk(gnode))
         rr.ob(ok, {'class': 'TexNamedEnv', 'delimiter': attr, 'reads_live_name': ok})
         if not ok:
             rr.fail(Finding('R14.a', 'data', 'TexNamedEnv.%s' % attr, 'TexNamedEnv.%s' % attr, 'the %s delimiter of a named '
